@@ -160,7 +160,7 @@ func genCount(r *simcore.RNG, tier string) int {
 
 // output file names a user might choose
 var fileNames = []string{"", "", "", "", "a b c.EXT", "ünï-çødé.EXT", "UPPER.EXT", "noext", "two.dots.v1.2.EXT", "100%d%s%v.EXT", ".hidden.EXT", "-dash.EXT",
-	"long-" + strings.Repeat("x", 180) + ".EXT", "file.EXT.bak", "sub dir name.EXT"}
+	"long-" + strings.Repeat("x", 180) + ".EXT", "file.EXT.bak", "sub dir name.EXT", "@dotdot/part.EXT", "@dotdot/part.EXT"}
 
 // consumer-side hook sites of a sink
 func sinkSites(sink string) []string {
@@ -236,6 +236,8 @@ func scriptJob(r *simcore.RNG, id int, tier string, sinks []string, n int, style
 	if sink != "tri" {
 		j.Name = pick(r, fileNames)
 	}
+	j.Reuse = r.Intn(4) == 0
+	j.CloseTwice = r.Intn(5) == 0
 	if r.Intn(4) == 0 {
 		// arbitrary geometry instead of numbered items: slivers, near-duplicate and
 		// shared vertices, duplicates (the multiset oracle counts multiplicities)
